@@ -172,6 +172,23 @@ def clamps(F, res, reach):
     res.count("clamp/wrap calls", n)
 
 
+def floats(F, res, reach):
+    """a quantity (up to 128 bits) never passes through a float on the quantity path; the functions that only *rank* candidates
+    with floats are tabled (their result orders candidates, no amount flows out of them)"""
+    from ..common import float_sites
+    rows = {r["key"]: r["reason"] for r in table("e4_rows").get("floats", [])}
+    by_fn = {}
+    for f, line, what in float_sites(F, reach):
+        by_fn.setdefault(f["path"], (f, line, []))[2].append(what)
+    for p, (f, line, whats) in sorted(by_fn.items()):
+        key = "%s|floating point" % p
+        if key in rows:
+            res.add([ok("FLOAT", key, where(f, line), "D-TABLE: " + rows[key])])
+        else:
+            res.add([finding("FLOAT", key, where(f, line), "%s uses floating point on the quantity path (%s): values beyond 2^53 are rounded" % (p.split("::")[-1], "; ".join(sorted(set(whats))[:3])))])
+    res.count("functions using floating point on the quantity path", len(by_fn))
+
+
 def drop_rule(F, res):
     f = F.fn("tx3_cardano::compile::asset_math::fold_assets")
     cfg = mir.CFG(f)
@@ -291,6 +308,7 @@ def run(ctx):
     res.rule("DROP", "the None of a checked add must not flow into a removal")
     res.rule("SUBID", "subtraction never returns its subtrahend unchanged")
     res.rule("MERGE", "quantity-bearing maps are combined by aggregation, never by overwrite")
+    res.rule("FLOAT", "no quantity passes through floating point (tabled: the candidate ranking of the vector selector)")
     res.rule("BIGNUM", "negative bignums carry -1 - n")
     cg = CallGraph(F)
     reach = cg.reachable(ROOTS)
@@ -301,6 +319,7 @@ def run(ctx):
     drop_rule(F, res)
     sub_identity(F, res)
     merge_rule(F, res, reach)
+    floats(F, res, reach)
     # integers that leave the 64-bit range are encoded as CBOR bignums: the negative form carries -1 - n (rule shared with C09)
     from . import c09
     r3 = Result("C02")
